@@ -2,6 +2,7 @@ package gosx
 
 import (
 	"fmt"
+	"os"
 	"sort"
 	"strings"
 	"sync"
@@ -16,7 +17,9 @@ import (
 
 // WorkItem is a decision prefix to replay, with a model (by variable name) known to satisfy it.
 type WorkItem struct {
+	Origin string
 	Prefix []int32
+	Hs     []uint64 // structural hash of the condition / choice decided at each position
 	Model  map[string]uint64
 }
 
@@ -42,12 +45,14 @@ type Config struct {
 	Seed          int64
 	Trace         bool
 	CrossCheckPct int
+	Witnesses     int
 }
 
 type SiteStat struct {
 	Reached int64 `json:"reached"`
 	Proved  int64 `json:"proved"`
 	Failed  int64 `json:"failed"`
+	Inherited int64 `json:"inherited_from_ancestor_path"`
 }
 
 type PathSample struct {
@@ -76,6 +81,7 @@ type Result struct {
 	CrossChecked  int64
 	CrossDisagree int64
 	MaxPathDecisions int
+	Witnesses     []map[string]uint64
 }
 
 type Explorer struct {
@@ -110,14 +116,20 @@ type Path struct {
 	ex        *Explorer
 	w         *worker
 	prefix    []int32
+	prefixHs  []uint64
 	pos       int
 	decisions []int32
+	decHs     []uint64
+	rep       map[*term.T]*term.T
+	origin    string
 	pc        []*term.T
 	model     map[*term.T]uint64
 	memo      map[*term.T]*term.T
 	hasModel  bool
 	pendingModel map[string]uint64
 	nlt       map[[3]int]bool
+	strLess   map[*term.T][2][]*term.T
+	nStrLess  [][2][]*term.T
 	vars      []*term.T
 	choices   map[string]uint64
 	regions   map[string]*term.T
@@ -265,7 +277,7 @@ func (w *worker) loop() {
 
 func (w *worker) runPath(it *WorkItem) {
 	ex := w.ex
-	x := &Path{ex: ex, w: w, prefix: it.Prefix, choices: map[string]uint64{}, regions: map[string]*term.T{}, exitAck: make(chan struct{}, 128)}
+	x := &Path{ex: ex, w: w, origin: it.Origin, prefix: it.Prefix, prefixHs: it.Hs, rep: map[*term.T]*term.T{}, choices: map[string]uint64{}, regions: map[string]*term.T{}, exitAck: make(chan struct{}, 128)}
 	m := &Machine{P: ex.P, C: w.ctx, X: x, globals: map[*ssa.Global]*Value{}, initDone: map[*ssa.Package]bool{},
 		maxSteps: ex.Cfg.MaxSteps, ndCount: map[string]int{}, Params: ex.Params, natives: map[string]interface{}{}, trace: ex.Cfg.Trace}
 	g0 := &goroutine{id: 0, wake: make(chan struct{}, 1), started: true}
@@ -280,6 +292,8 @@ func (w *worker) runPath(it *WorkItem) {
 		x.hasModel = true
 	}
 	x.memo = map[*term.T]*term.T{}
+	w.ctx.Rep = x.rep
+	defer func() { w.ctx.Rep = nil }()
 	outcome := "ok"
 	detail := ""
 	func() {
@@ -374,6 +388,14 @@ func (ex *Explorer) record(x *Path, m *Machine, outcome, detail string) {
 	if x.unknownFeas {
 		r.Inconclusive["solver returned unknown for a feasibility query (path kept)"] += 0
 	}
+	if outcome == "ok" && x.hasModel && len(x.pc) > 0 && ex.Cfg.Witnesses > 0 && r.Paths&(r.Paths-1) == 0 {
+		w := x.namedModel()
+		if len(r.Witnesses) < ex.Cfg.Witnesses {
+			r.Witnesses = append(r.Witnesses, w)
+		} else {
+			r.Witnesses[int(r.Paths)%len(r.Witnesses)] = w
+		}
+	}
 	if len(r.Samples) < 6 && (len(x.pc) > 0 || len(r.Samples) == 0) {
 		s := PathSample{Outcome: outcome, Decisions: len(x.decisions)}
 		for i, c := range x.pc {
@@ -403,13 +425,85 @@ func (x *Path) namedModel() map[string]uint64 {
 
 // ---------- decisions ----------
 
+// learn records facts implied by a path-condition literal as rewrite rules (term.Ctx.Rep):
+// a Boolean literal becomes the constant it is known to be, an equality a=b maps the
+// structurally larger side to the smaller one. Representatives are chosen by a
+// construction-order-independent order so that re-execution on another worker folds the same
+// conditions.
+func (x *Path) learn(m *Machine, c *term.T, val bool) {
+	if c.IsConst() {
+		return
+	}
+	C := m.C
+	if c.Op == term.OpNot {
+		x.learn(m, c.Args[0], !val)
+		return
+	}
+	x.rep[c] = C.Bool(val)
+	switch {
+	case c.Op == term.OpAnd && val:
+		x.learn(m, c.Args[0], true)
+		x.learn(m, c.Args[1], true)
+	case c.Op == term.OpOr && !val:
+		x.learn(m, c.Args[0], false)
+		x.learn(m, c.Args[1], false)
+	case c.Op == term.OpEq && val && c.Args[0].W > 0:
+		a, b := C.Canon(c.Args[0]), C.Canon(c.Args[1])
+		if a == b {
+			return
+		}
+		if term.Less(b, a) {
+			a, b = b, a
+		}
+		// a is the representative
+		if b.IsConst() {
+			return // two different constants: infeasible path, nothing to learn
+		}
+		x.rep[b] = a
+	}
+}
+
 // addPC appends a literal to the path condition and saturates it with implied equalities:
 // ¬(a<b) ∧ ¬(b<a) ⇒ a=b (bit-vector orders are total). Solvers do not derive this before
 // bit-blasting multiplications that depend on a and b, so the engine states it.
+var debugInvariant = os.Getenv("VCHECK_INVARIANT") != ""
+
+func (x *Path) checkInvariant(m *Machine, where string) {
+	if !debugInvariant || !x.hasModel || x.pos < len(x.prefix) {
+		return
+	}
+	memo := map[*term.T]*term.T{}
+	for i, c := range x.pc {
+		if v, ok := m.C.Eval(c, x.model, memo); ok && v == 0 {
+			fmt.Fprintf(os.Stderr, "INVARIANT BROKEN at %s: literal %d/%d %s; pos=%d prefix=%d pending=%v\n", where, i, len(x.pc), term.String(c, 5), x.pos, len(x.prefix), x.pendingModel != nil)
+			fmt.Fprintf(os.Stderr, "  model=%v\n  pending=%v\n  decisions=%v origin=%s\n", x.namedModel(), x.pendingModel, x.decisions, x.origin)
+			debugInvariant = false
+			return
+		}
+	}
+}
+
 func (x *Path) addPC(m *Machine, c *term.T) {
+	defer x.checkInvariant(m, "addPC")
 	x.pc = append(x.pc, c)
+	x.learn(m, c, true)
 	if c.Op == term.OpNot {
 		in := c.Args[0]
+		if pair, ok := x.strLess[in]; ok {
+			// ¬(a<b) recorded; with ¬(b<a) the strings are equal (same length) byte for byte
+			for _, q := range x.nStrLess {
+				if sameTerms(q[0], pair[1]) && sameTerms(q[1], pair[0]) && len(pair[0]) == len(pair[1]) {
+					for i := range pair[0] {
+						e := m.C.Eq(pair[0][i], pair[1][i])
+						if !e.IsConst() {
+							x.pc = append(x.pc, e)
+							x.learn(m, e, true)
+						}
+					}
+				}
+			}
+			x.nStrLess = append(x.nStrLess, pair)
+		}
 		if in.Op == term.OpSlt || in.Op == term.OpUlt {
 			if x.nlt == nil {
 				x.nlt = map[[3]int]bool{}
@@ -417,7 +511,9 @@ func (x *Path) addPC(m *Machine, c *term.T) {
 			a, b := in.Args[0], in.Args[1]
 			x.nlt[[3]int{int(in.Op), a.ID, b.ID}] = true
 			if x.nlt[[3]int{int(in.Op), b.ID, a.ID}] {
-				x.pc = append(x.pc, m.C.Eq(a, b))
+				e := m.C.Eq(a, b)
+				x.pc = append(x.pc, e)
+				x.learn(m, e, true)
 			}
 		}
 	}
@@ -465,8 +561,23 @@ func (x *Path) check(m *Machine, extra ...*term.T) solver.Result {
 	return r
 }
 
-func (x *Path) getModel(m *Machine) (map[*term.T]uint64, bool) {
-	return x.w.sol.Model(x.vars)
+// getModel fetches the model of the last sat answer and re-validates it inside the engine
+// against the path condition (extra = the literals of the query beyond the path condition).
+func (x *Path) getModel(m *Machine, extra ...*term.T) (map[*term.T]uint64, bool) {
+	mod, ok := x.w.sol.Model(x.vars)
+	if !ok {
+		return nil, false
+	}
+	memo := map[*term.T]*term.T{}
+	for _, lits := range [][]*term.T{x.pc, extra} {
+		for _, c := range lits {
+			if v, ok := m.C.Eval(c, mod, memo); ok && v == 0 {
+				x.ex.noteInconclusive("solver model failed in-engine validation (discarded)")
+				return nil, false
+			}
+		}
+	}
+	return mod, true
 }
 
 func (x *Path) namedOf(mod map[*term.T]uint64) map[string]uint64 {
@@ -477,11 +588,14 @@ func (x *Path) namedOf(mod map[*term.T]uint64) map[string]uint64 {
 	return out
 }
 
-func (x *Path) newPrefix(d int32) []int32 {
+func (x *Path) newItem(d int32, h uint64, model map[string]uint64) *WorkItem {
 	p := make([]int32, len(x.decisions)+1)
 	copy(p, x.decisions)
 	p[len(x.decisions)] = d
-	return p
+	hs := make([]uint64, len(x.decHs)+1)
+	copy(hs, x.decHs)
+	hs[len(x.decHs)] = h
+	return &WorkItem{Prefix: p, Hs: hs, Model: model}
 }
 
 func b2i(b bool) int32 {
@@ -502,8 +616,12 @@ func (m *Machine) Decide(c *term.T) bool {
 	}
 	if x.pos < len(x.prefix) {
 		d := x.prefix[x.pos] != 0
+		if x.prefixHs[x.pos] != c.H {
+			m.abort("replay divergence: re-execution reached a different branch condition")
+		}
 		x.pos++
 		x.decisions = append(x.decisions, b2i(d))
+		x.decHs = append(x.decHs, c.H)
 		x.addPC(m, x.lit(m, c, d))
 		return d
 	}
@@ -517,13 +635,15 @@ func (m *Machine) Decide(c *term.T) bool {
 		other := !side
 		switch x.check(m, x.lit(m, c, other)) {
 		case solver.Sat:
-			if mod, ok := x.getModel(m); ok {
-				x.ex.push(&WorkItem{Prefix: x.newPrefix(b2i(other)), Model: x.namedOf(mod)})
+			if mod, ok := x.getModel(m, x.lit(m, c, other)); ok {
+				it := x.newItem(b2i(other), c.H, x.namedOf(mod))
+				it.Origin = "decide-with-model"
+				x.ex.push(it)
 			} else {
-				x.ex.push(&WorkItem{Prefix: x.newPrefix(b2i(other))})
+				x.ex.push(x.newItem(b2i(other), c.H, nil))
 			}
 		case solver.Unknown:
-			x.ex.push(&WorkItem{Prefix: x.newPrefix(b2i(other))})
+			x.ex.push(x.newItem(b2i(other), c.H, nil))
 			x.noteUnknown()
 		}
 		take = side
@@ -531,22 +651,24 @@ func (m *Machine) Decide(c *term.T) bool {
 		rT := x.check(m, c)
 		var modT map[*term.T]uint64
 		if rT == solver.Sat {
-			modT, _ = x.getModel(m)
+			modT, _ = x.getModel(m, c)
 		}
 		rF := x.check(m, m.C.Not(c))
 		var modF map[*term.T]uint64
 		if rF == solver.Sat {
-			modF, _ = x.getModel(m)
+			modF, _ = x.getModel(m, m.C.Not(c))
 		}
 		if rT == solver.Unknown || rF == solver.Unknown {
 			x.noteUnknown()
 		}
 		switch {
 		case rT != solver.Unsat && rF != solver.Unsat:
-			it := &WorkItem{Prefix: x.newPrefix(0)}
+			var nm map[string]uint64
 			if modF != nil {
-				it.Model = x.namedOf(modF)
+				nm = x.namedOf(modF)
 			}
+			it := x.newItem(0, c.H, nm)
+			it.Origin = "decide-no-model"
 			x.ex.push(it)
 			take = true
 			if modT != nil {
@@ -569,6 +691,7 @@ func (m *Machine) Decide(c *term.T) bool {
 		}
 	}
 	x.decisions = append(x.decisions, b2i(take))
+	x.decHs = append(x.decHs, c.H)
 	x.addPC(m, x.lit(m, c, take))
 	return take
 }
@@ -590,8 +713,16 @@ func (m *Machine) Choose(name string, n int) int {
 	m.ndCount["choice:"+name] = occ + 1
 	key := fmt.Sprintf("%s#%d", name, occ)
 	var v int32
+	nameH := uint64(len(name)) + 7
+	for i := 0; i < len(name); i++ {
+		nameH = nameH*1099511628211 ^ uint64(name[i])
+	}
+	nameH ^= uint64(n) << 48
 	if x.pos < len(x.prefix) {
 		v = x.prefix[x.pos]
+		if x.prefixHs[x.pos] != nameH {
+			m.abort("replay divergence: re-execution reached a different choice point")
+		}
 		x.pos++
 	} else {
 		if len(x.decisions) >= x.ex.Cfg.MaxDecisions {
@@ -604,11 +735,14 @@ func (m *Machine) Choose(name string, n int) int {
 			named = x.namedOf(x.model)
 		}
 		for k := n - 1; k >= 1; k-- {
-			x.ex.push(&WorkItem{Prefix: x.newPrefix(int32(k)), Model: named})
+			it := x.newItem(int32(k), nameH, named)
+			it.Origin = "choose"
+			x.ex.push(it)
 		}
 		v = 0
 	}
 	x.decisions = append(x.decisions, v)
+	x.decHs = append(x.decHs, nameH)
 	x.choices[key] = uint64(v)
 	return int(v)
 }
@@ -643,15 +777,25 @@ func (m *Machine) Assume(c *term.T) {
 		}
 		return
 	}
+	if x.pos < len(x.prefix) {
+		// Replaying a prefix: this assumption was already part of the ancestor's path condition
+		// (whose feasibility was established when the fork was created).
+		x.addPC(m, c)
+		return
+	}
 	if v, ok := x.eval(m, c); ok && v {
 		x.addPC(m, c)
 		return
+	}
+	if debugInvariant && x.pos < len(x.prefix) && x.hasModel {
+		v, ok := x.eval(m, c)
+		fmt.Fprintf(os.Stderr, "ASSUME-IN-REPLAY not satisfied: v=%v ok=%v cond=%s pos=%d/%d model=%v pending=%v\n", v, ok, term.String(c, 4), x.pos, len(x.prefix), x.namedModel(), x.pendingModel)
 	}
 	switch x.check(m, c) {
 	case solver.Unsat:
 		panic(pathEnd{"assumption infeasible"})
 	case solver.Sat:
-		if mod, ok := x.getModel(m); ok {
+		if mod, ok := x.getModel(m, c); ok {
 			x.addPC(m, c)
 			x.setModel(m, mod)
 			return
@@ -706,6 +850,13 @@ func (x *Path) assertCore(m *Machine, c *term.T, tag, detail string) {
 	st := ex.site("assert:" + tag)
 	st.Reached++
 	ex.mu.Unlock()
+	if x.pos < len(x.prefix) {
+		// Replaying a prefix: the ancestor path checked this assertion under the same path condition.
+		ex.mu.Lock()
+		st.Inherited++
+		ex.mu.Unlock()
+		return
+	}
 	notc := C.Not(c)
 	if notc.IsConst() && notc.Val == 0 {
 		ex.mu.Lock()
@@ -731,7 +882,7 @@ func (x *Path) assertCore(m *Machine, c *term.T, tag, detail string) {
 			switch x.check(m, condA) {
 			case solver.Sat:
 				found = true
-				if mod, ok := x.getModel(m); ok {
+				if mod, ok := x.getModel(m, condA); ok {
 					cex = x.namedOf(mod)
 					for k, v := range x.choices {
 						cex[k] = v
@@ -742,6 +893,13 @@ func (x *Path) assertCore(m *Machine, c *term.T, tag, detail string) {
 				}
 			case solver.Unknown:
 				ex.noteInconclusive("solver unknown on assertion " + tag)
+				if os.Getenv("VCHECK_DEBUG") != "" {
+					fmt.Fprintf(os.Stderr, "UNKNOWN assertion %s choices=%v\n", tag, x.choices)
+					for _, l := range x.pc {
+						fmt.Fprintf(os.Stderr, "   pc: %s\n", term.String(l, 8))
+					}
+					fmt.Fprintf(os.Stderr, "   goal: %s\n", term.String(condA, 12))
+				}
 			}
 		}
 		if found {
@@ -763,7 +921,7 @@ func (x *Path) assertCore(m *Machine, c *term.T, tag, detail string) {
 			continue
 		}
 		if x.check(m, condB) == solver.Sat {
-			if mod, ok := x.getModel(m); ok {
+			if mod, ok := x.getModel(m, condB); ok {
 				cex := x.namedOf(mod)
 				for k, v := range x.choices {
 					cex[k] = v
@@ -788,6 +946,20 @@ func (ex *Explorer) noteInconclusive(why string) {
 }
 
 func (ex *Explorer) addViolation(x *Path, m *Machine, tag, known string, nd map[string]uint64, detail string) {
+	// re-validate the model against the path condition inside the engine
+	{
+		mod := map[*term.T]uint64{}
+		for _, v := range x.vars {
+			mod[v] = nd[v.Name]
+		}
+		memo := map[*term.T]*term.T{}
+		for i, c := range x.pc {
+			if v, ok := m.C.Eval(c, mod, memo); ok && v == 0 {
+				detail += fmt.Sprintf(" [engine: model violates path-condition literal %d: %s]", i, term.String(c, 6))
+				break
+			}
+		}
+	}
 	ex.mu.Lock()
 	defer ex.mu.Unlock()
 	key := tag + "|" + known
@@ -802,4 +974,16 @@ func (ex *Explorer) addViolation(x *Path, m *Machine, tag, known string, nd map[
 	}
 	ex.res.Violations = append(ex.res.Violations, &Violation{Harness: ex.Harness, Pkg: pkg, Tag: tag, Known: known, ND: nd,
 		Params: ex.Params, Decisions: len(x.decisions), Detail: detail})
+}
+
+func sameTerms(a, b []*term.T) bool {
+	if len(a) != len(b) {
+		return false
+	}
+	for i := range a {
+		if a[i] != b[i] {
+			return false
+		}
+	}
+	return true
 }
